@@ -14,21 +14,34 @@ Lemma BINC_eq : BIN_COUNT = 24. Proof. reflexivity. Qed.
 Lemma align16_pow2 : pow2 ALLOC_ALIGN. Proof. exists 4. split; [lia | reflexivity]. Qed.
 
 (* ---------- get_bin_index ---------- *)
+(* parametric in the three tuning constants: any retune with 0 <= BIN_MIN_LOG, 0 < BIN_COUNT,
+   BIN_MIN_LOG + BIN_COUNT <= 32 and BIN_CLZ_BASE = 31 - BIN_MIN_LOG keeps the index in range *)
+Definition get_bin_index_p (L C B size : Z) : Z :=
+  if size <=? 2 ^ L then 0
+  else if size >=? 2 ^ (L + C) then C - 1
+  else B - clz32 (size mod two32).
+
+Lemma get_bin_index_p_range L C B sz :
+  0 <= L -> 0 < C -> L + C <= 32 -> B = 31 - L -> 0 <= get_bin_index_p L C B sz < C.
+Proof.
+  intros HL HC HLC ->. unfold get_bin_index_p.
+  destruct (sz <=? 2 ^ L) eqn:E1; [lia|].
+  destruct (sz >=? 2 ^ (L + C)) eqn:E2; [lia|].
+  apply Z.leb_gt in E1. rewrite Z.geb_leb in E2. apply Z.leb_gt in E2.
+  assert (HpL : 0 < 2 ^ L) by (apply Z.pow_pos_nonneg; lia).
+  assert (Hp32 : 2 ^ (L + C) <= two32).
+  { unfold two32. change 4294967296 with (2 ^ 32). apply Z.pow_le_mono_r; lia. }
+  rewrite Z.mod_small by lia.
+  unfold clz32. destruct (sz <=? 0) eqn:E0; [apply Z.leb_le in E0; lia|].
+  assert (L <= Z.log2 sz) by (apply Z.log2_le_pow2; lia).
+  assert (Z.log2 sz < L + C) by (apply Z.log2_lt_pow2; lia).
+  lia.
+Qed.
+
 Lemma get_bin_index_range sz : 0 <= get_bin_index sz < BIN_COUNT.
 Proof.
-  unfold get_bin_index, BIN_MIN_LOG, BIN_COUNT, BIN_CLZ_BASE.
-  destruct (sz <=? 2 ^ 3) eqn:E1; [lia|].
-  destruct (sz >=? 2 ^ (3 + 24)) eqn:E2; [lia|].
-  apply Z.leb_gt in E1. rewrite Z.geb_leb in E2. apply Z.leb_gt in E2.
-  assert (H27 : 2 ^ (3 + 24) = 134217728) by reflexivity. rewrite H27 in E2.
-  assert (H8 : 2 ^ 3 = 8) by reflexivity. rewrite H8 in E1.
-  rewrite Z.mod_small by (unfold two32; lia).
-  unfold clz32. destruct (sz <=? 0) eqn:E0; [apply Z.leb_le in E0; lia|].
-  assert (3 <= Z.log2 sz).
-  { change 3 with (Z.log2 8). apply Z.log2_le_mono. lia. }
-  assert (Z.log2 sz < 27).
-  { apply Z.log2_lt_pow2; [lia|]. change (2 ^ 27) with 134217728. lia. }
-  lia.
+  change (get_bin_index sz) with (get_bin_index_p BIN_MIN_LOG BIN_COUNT BIN_CLZ_BASE sz).
+  apply get_bin_index_p_range; vm_compute; try reflexivity; intros Hx; discriminate Hx.
 Qed.
 
 (* ---------- find_chunk / split_last ---------- *)
